@@ -5,12 +5,19 @@ CFG = dict(
           "go->child + send->receive): C15_lockset_sound_classes (every location consistently guarded by one mutex, or "
           "atomic-only, or thread-confined, or written only before a publishing event => no well-formed trace has two "
           "conflicting accesses unordered by happens-before) and its table form C15_lockset_sound (race_free_table tbl = true "
-          "=> every trace conforming to the table is race free), C15_checker_spec, C15_unguarded_rejected. The access table of "
+          "=> every trace conforming to the table is race free), C15_checker_spec, C15_unguarded_rejected. Initialisation comes in two "
+          "kinds that the table keeps apart: object-level (class init: written while the object is still private to its creator; "
+          "safe against every site) and field-level publication (class pub:<tag>: the object is already shared, the write is "
+          "ordered only before the sites listed one by one as after:<tag>, i.e. sites of goroutines the writer starts or messages "
+          "afterwards - C15_after_by_go, C15_after_by_send); C15_pub_unlisted_rejected: a pub write next to any unlisted site "
+          "without a common mutex makes the checker reject the table. The access table of "
           "the tracked structs (RpcMultiplexer, respHandler, clientStream, serverStream, unaryServerTransportStream, handler, "
           "streamHandler, Server, Proxy, proxyClient, Demux, demuxConn, GoatOverHttp, httpReadWriter, ClientConn) is REGENERATED "
           "FROM /repo's SOURCE on every run by tools/locksets (go/ast + go/types) and race_free_table is evaluated on it by "
           "vm_compute, one case per field; free-running concurrent workloads (mux, mux+Stop/connection failure, by-reference "
-          "channel transport, proxy with many peers, demux with many keys, HTTP transport with its cleaner) run under the race "
+          "channel transport, proxy with many peers + on-demand slow dials under a burst larger than the per-peer queue + "
+          "stalled writers + failing dials + interceptor rejections + a two-proxy chain, demux with many keys, HTTP transport "
+          "with its cleaner) run under the race "
           "detector on 1, 4 and 16 Ps with seeded yields at the instrumented points: a report with a goat frame is a failing "
           "input. NOT covered by the static table: locals captured by closures, slice/map element internals, protobuf messages "
           "shared by reference, everything inside dependencies, aliasing through pointers to fields; path-insensitive locking "
@@ -18,12 +25,13 @@ CFG = dict(
           "happens to run.",
     level_note="Closed under the global context (no axioms). PARTIAL by nature: the theorem is about the abstract access model; "
                "the link to the code is (1) the source-derived lockset table (trusted: tools/locksets, ~1900 lines of Go, and the "
-               "hand-written justifications of tools/locksets/justify.txt - class init / confined, each with its code-reading "
+               "hand-written justifications of tools/locksets/justify.txt - class init / confined / pub+after, each with its code-reading "
                "argument, checked for staleness; one of them is the usage contract 'RegisterService before Serve') and (2) the "
                "race detector on sampled schedules. Neither is a proof about the Go code.",
     props="Props/C15.v",
     go_tags="tr",
-    theorems=["C15_lockset_sound_classes", "C15_lockset_sound", "C15_checker_spec", "C15_unguarded_rejected", "C15_hb_forward"],
+    theorems=["C15_lockset_sound_classes", "C15_lockset_sound", "C15_checker_spec", "C15_unguarded_rejected",
+              "C15_pub_unlisted_rejected", "C15_after_by_go", "C15_after_by_send", "C15_hb_forward"],
     imports=["Model.Access", "Check.C15c"],
     case_type="c15case", find_bad_from="find_bad_from",
     rigs=[dict(test="TestC15Table", timeout_quick=120, timeout_thorough=300),
@@ -34,7 +42,8 @@ CFG = dict(
                       "its rows; the case names the field and the sites), or the race detector reported a race with a goat frame "
                       "(the replay is the report), or the race binary died"},
     rule="static: every access site of every field of the tracked structs (one case per field: rows = read/write, function, "
-         "locks held on straight-line Lock/defer Unlock/Unlock paths, *Locked helpers inherit, class plain/atomic/init/confined); "
+         "locks held on straight-line Lock/defer Unlock/Unlock paths, *Locked helpers inherit, class plain/atomic/init/confined/"
+         "pub:<tag>/after:<tag>; no wildcard for after-sites); "
          "dynamic: 6 workloads x GOMAXPROCS {1,4,16} (thorough: 12 repetitions each) under -race with seeded yields; "
          "non-trivial = distinct description hash",
     assumptions=["tools/locksets and tools/locksets/justify.txt are trusted (the justifications are hand-written arguments)",
